@@ -39,6 +39,13 @@ claim('C05', 'guard-dominates-exit analysis of the constructor, who-may-write sc
       'different argument forms is not decided.',
       'Assumes list / ndarray builtin semantics and the documented NumPy 2 meaning of copy=False.', 'DESIGN.md §3 C05')
 
+claim('C06', 'label-set region algebra over provenance terms (isin / mask / concatenate / union1d) + value numbering of the fold, the reindex loop and the ownership of the sorted axis',
+      'Decides structural clauses of C06: on every returning path Axis.union yields each of the regions A-only, both, B-only exactly once and '
+      'Axis.intersection yields the common labels once in the first axis\' stored order; _common_axis folds over all inputs with the right operation per join '
+      'mode; align() reindexes exactly the arrays that have the dimension, on the common axis, from the current (not a stale) list element, in a private copy '
+      'of the list; the axis sorted under sort=True is a fresh deep copy and is sorted ascending. Order of the union for mixed kinds and fill values are not decided.',
+      'Assumes np.isin / np.union1d / np.concatenate documented semantics.', 'DESIGN.md §3 C06')
+
 UNDER_CONSTRUCTION = 'checker under construction in this session (claimed in DESIGN.md, not yet registered)'
 for pid in ['C01', 'C03', 'C04', 'C05', 'C06', 'C07', 'C08', 'C09', 'C10', 'C11', 'C12', 'C13', 'C14', 'C15', 'C16',
             'C17', 'C18', 'C19']:
